@@ -423,6 +423,32 @@ def sc_c03(env, t, v, cfg):
             continue
         env.frame(m, own + targets, f"C03 a fitting assignment writes only inside the object (and its reference targets) (leaf {path})")
     neighbours_intact(env, B, "by fitting assignments")
+    # a String OBJECT whose text fits but whose own capacity is far larger than the space of the target: either outcome
+    # a conforming library may choose -- refusal with nothing written, or success -- must stay inside the object
+    k = 0
+    for path, lt, lv in V.leaves(t, v):
+        if lt[0] != "string" or not path or behind_ref(t, v, path):
+            continue
+        k += 1
+        if k > 2:
+            break
+        big = xo.String(len(lv.encode()) + 48, _buffer=env.fresh(512, tag=f"s{k}"))
+        m = env.mark()
+        accepted = True
+        try:
+            V.set_at(t, obj, path, big)
+        except BaseException as ex:
+            if not isinstance(ex, Exception):
+                raise
+            accepted = False
+        if accepted:
+            env.frame(m, own + targets, f"C03 assigning a String object of larger capacity (empty text) writes only inside the object (leaf {path})")
+            got = V.get_at(t, obj, path)
+            env.check(got == "", f"C03 the accepted String object assignment stores its text (leaf {path})")
+            exp_now = None
+        else:
+            env.no_stores_since(m, f"C03 a refused String object assignment writes nothing (leaf {path})")
+        neighbours_intact(env, B, "by the assignment of a String object of larger capacity")
     env.reach()
 
 
@@ -582,6 +608,21 @@ def sc_c09(env, t, v, cfg):
     if cfg.get("src") == "view" and t[0] != "uref":
         # the source is a view rebuilt from (buffer, offset), as every nested field / item / reference target is
         arg = cls._from_buffer(src._buffer, src._offset)
+    shortened = False
+    if cfg.get("src") == "shortened":
+        # the source has a history: texts shortened in place (their space stays what it was at creation)
+        k = 0
+        for path, lt, x in V.leaves(t, v):
+            if lt[0] != "string" or not path or behind_ref(t, v, path[:-1]):
+                continue
+            k += 1
+            nv = other_string(x, 2 if k % 2 else 3)  # much shorter / empty
+            if nv == x:
+                continue
+            V.set_at(t, src, path, nv)
+            B.exp = V.replace_at(t, B.exp, path, V.expected(lt, nv))
+            v = V.replace_at(t, v, path, nv)
+            shortened = True
     m = env.mark()
     try:
         if where == "same":
@@ -603,7 +644,8 @@ def sc_c09(env, t, v, cfg):
     read_ok(env, t, cp, B.exp, f"C09 copy ({where} buffer) equals the original")
     read_ok(env, t, src, B.exp, f"C09 original unchanged by copying ({where} buffer)")
     ssz, csz = own_size(t, src), own_size(t, cp)
-    env.check(env.eq(ssz, csz), "C09 copy has the original's size")
+    if not shortened:
+        env.check(env.eq(ssz, csz), "C09 copy has the original's size")
     if where == "same":
         env.check(sor(env, sle(env, src._offset + ssz, cp._offset), sle(env, cp._offset + csz, src._offset)), "C09 storage of copy and original is disjoint")
     else:
@@ -914,7 +956,7 @@ def sc_c10(env, t, v, cfg):
 
 # --------------------------------------------------------------------------
 # C11 -- misuse fails without side effects
-def expect_error(env, B, fn, what, allowed=(Exception,), constructing=False):
+def expect_error(env, B, fn, what, allowed=(Exception,), constructing=False, may_allocate=False):
     t, obj = B.t, B.obj
     m = env.mark()
     raised = None
@@ -925,7 +967,9 @@ def expect_error(env, B, fn, what, allowed=(Exception,), constructing=False):
             raise
         raised = ex
     env.check(raised is not None, f"C11 {what}: an error is raised")
-    if not constructing:
+    if not constructing and not may_allocate:
+        # (an update whose leading items are (typename, data) pairs creates their objects in free space before the
+        # refusal: no existing object lives there -- judged on values, like a refused construction)
         # (a refused CONSTRUCTION may have written into the space it had just been given: no existing object
         # lives there; it is judged on the values of the existing objects only)
         env.no_stores_since(m, f"C11 {what}: no byte of the buffer was written" + ("" if raised is not None else " (operation was accepted)"))
@@ -959,6 +1003,13 @@ def sc_c11(env, t, v, cfg):
                     if lt[0] == "scalar":
                         expect_error(env, B, lambda: node.__setitem__(key, 1), f"writing index {idx} outside shape {shape} at {path}")
                     n += 1
+            # an index with MORE components than the array has axes addresses nothing of its shape
+            if all(d > 0 for d in shape):
+                for idx in (base + (0,), base + (shape[-1] + 4,)):  # (fewer components are used by the library's own tests)
+                    key = idx if len(idx) != 1 else idx[0]
+                    expect_error(env, B, lambda: node[key], f"reading index {idx} with more components than shape {shape} at {path}")
+                    if ct[1][0] == "scalar":
+                        expect_error(env, B, lambda: node.__setitem__(key, 1), f"writing index {idx} with more components than shape {shape} at {path}")
             if n > cfg.get("max_cases", 12):
                 break
     elif misuse == "string":
@@ -993,6 +1044,35 @@ def sc_c11(env, t, v, cfg):
                 if any(d is not None and d != len(nv) for d in ct[2][:1]):
                     pass
                 expect_error(env, B, lambda: V.set_at(t, obj, path, nv), f"updating the array at {path} (shape {dims}) with a value of length {len(nv)}")
+            n += 1
+            if n >= cfg.get("max_cases", 3):
+                break
+    elif misuse == "array_bad_item":
+        # a whole-array update whose LAST item is unacceptable (a text where a number is expected; a non-member for a
+        # union item; a too long text for a string item): refused as a whole -- the leading, valid items must not
+        # have been written
+        for path, ct, cv in V.compounds(t, v):
+            if ct[0] != "array" or len(ct[2]) != 1 or not path or V.type_at(t, v, path)[0][0] in ("ref", "uref") or behind_ref(t, v, path):
+                continue
+            if not isinstance(cv, list) or len(cv) < 2:
+                continue
+            it = ct[1]
+            if it[0] == "scalar":
+                others = [other_scalar(it, x, 1) for x in cv]
+                bad = "not a number"
+            elif it[0] == "string":
+                others = [other_string(x, 1) for x in cv]
+                bad = "y" * (len(cv[-1].encode()) + 64)
+            elif it[0] == "uref":
+                others = list(cv)
+                others[0] = cv[1] if cv[1] is not None and cv[0] is not None and cv[1][0] == cv[0][0] else cv[0]
+                bad = ("NoSuchMember", {})
+            else:
+                continue
+            nv = others[:-1] + [bad]
+            if nv[:-1] == list(cv)[:-1] and it[0] != "uref":
+                continue
+            expect_error(env, B, lambda: V.set_at(t, obj, path, nv), f"updating the array at {path} with a list whose last item is unacceptable", may_allocate=(it[0] == "uref"))
             n += 1
             if n >= cfg.get("max_cases", 3):
                 break
@@ -1206,14 +1286,21 @@ def sc_c08(env, t, v, cfg):
         members = [rt[1]] if rt[0] == "ref" else list(rt[2])
         mt = members[(st[2] if len(st) > 2 else 0) % len(members)]
         mcls = tg.build(mt)
-        g = V.Gen(0, 2)
+        empty = len(st) > 3 and st[3] == "empty" and mt[0] == "array" and any(d is None for d in mt[2])
+        g = V.Gen(0, 0 if empty else 2)  # "empty": a zero-length target (an object whose truth value is False)
         g.c = itertools.count(20 + 7 * stepno)
         mv = g.sample(mt)
-        what = f"C08 step {stepno} {st[0]} at {path}"
-        if st[0] == "bind_existing":
+        what = f"C08 step {stepno} {st[0]}{' (zero-length target)' if empty else ''} at {path}"
+        if st[0] in ("bind_existing", "bind_uref_instance"):
+            if st[0] == "bind_uref_instance" and rt[0] != "uref":
+                continue
             target = mcls(mv, _buffer=buf)
+            given = target
+            if st[0] == "bind_uref_instance":
+                # the existing object is handed over as a bound union-reference object living elsewhere in the buffer
+                given = tg.build(rt)(target, _buffer=buf)
             m = env.mark()
-            V.set_at(t, actor, path, target)
+            V.set_at(t, actor, path, given)
             got = V.get_at(t, obj, path)
             env.check(got is not None and got.__class__.__name__ == mcls.__name__, what + ": reads back an object of the bound type")
             if got is not None:
